@@ -202,6 +202,9 @@ class Gen:
         yield "c.new n=%d r=%d w=%d rq=1 rr=%d parts=%d tsize=%d%s" % (n, R, W, r.choice([0, 1]), parts, r.choice([512, 4096]), " idle_ms=%d" % idle if idle else "")
         alive = list(range(n))
         keys = [hx(b"f%d" % i) for i in range(10)]
+        # the longest keys the store takes (table.MaxKeyLength - 1 = 255 bytes): the owner and the backup owners must
+        # agree on what they accept, or an acknowledged write has fewer copies than R
+        keys += [hx(b"L%d" % i + b"k" * 253) for i in range(3)]
         ver = [0]
 
         ckeys = [hx(b"cnt%d" % i) for i in range(3)]
